@@ -16,15 +16,11 @@
 (* pack machine) and the trace specifications re-use them unchanged.       *)
 (* Bytes are naturals 0..255; chunks are sequences of bytes.               *)
 (***************************************************************************)
-EXTENDS Naturals, Integers, Sequences, FiniteSets, SequencesExt
+EXTENDS Bytes
 
 FILL == 46   \* b'.'
 
 \* ------------------------------------------------------------------ helpers
-Max2(a, b) == IF a >= b THEN a ELSE b
-
-RepeatByte(b, n) == [i \in 1..(IF n > 0 THEN n ELSE 0) |-> b]
-
 \* bisect_right on a sorted sequence: number of elements <= p
 BisectRight(b, p) == Cardinality({i \in 1..Len(b) : b[i] <= p})
 
